@@ -366,6 +366,15 @@ def _valid_alt(G, B, l, f):
     if kind == "genpath":
         from pathlib import Path
         return Path("/elsewhere/file.txt")
+    if kind.startswith("nest:"):
+        _, outer, inner, base = kind.split(":")
+        cands = [x for x in G["nodes"] if R.isa(node_cls(G, x), base) and x in B.objs]
+        if cur not in (None, [], {"dict": {}}):
+            return [] if outer == "list" else {}
+        if not cands:
+            return "SKIP"
+        innerv = [B.objs[cands[0]]] if inner == "list" else {"z": B.objs[cands[0]]}
+        return [innerv] if outer == "list" else {"z": innerv}
     base = kind.split("cfg:")[1]
     cands = [x for x in G["nodes"] if R.isa(node_cls(G, x), base) and x in B.objs]
     # tasks used as values must have been submitted
@@ -391,9 +400,20 @@ def eval_c14(item):
     G, route = item["G"], item["route"]
     out = {"attempts": 0, "problems": [], "sig": sig_digest(G), "nodes": 0}
     root = G["root"]
+    aborted = route.startswith("abort+")
+    if aborted:
+        route = route[6:]
     try:
         B = Gr.build(G)
         submittable = is_task(G, root) and not Gr.has_cycle(G)
+        if aborted:
+            # a first attempt that fails half-way: instance() without a path context cannot fill generated paths and
+            # raises in the middle of the sealing walk; the later seal / submit must still freeze everything
+            try:
+                (B.tasks[root] if root in B.tasks else B.objs[root]).instance()
+                out["abort_raised"] = False
+            except BaseException:  # noqa
+                out["abort_raised"] = True
         if route == "submit":
             if not submittable:
                 return out
